@@ -128,8 +128,12 @@ def write_csv(rows: list[list[str]], quoting=csv.QUOTE_ALL, lineterminator="\r\n
     return buf.getvalue()
 
 
-def to_csv(aw: dict, quoting=csv.QUOTE_ALL, lineterminator="\r\n") -> str:
-    return write_csv(csv_rows(aw), quoting, lineterminator)
+def to_csv(aw: dict, quoting=csv.QUOTE_ALL, lineterminator="\r\n", pad=None) -> str:
+    """`pad(cell) -> cell` may add surrounding blanks to non-empty cells (csv_to_dict strips them)."""
+    rows = csv_rows(aw)
+    if pad is not None:
+        rows = [r if len(r) < 2 else [r[0], *[pad(c) if c else c for c in r[1:]]] for r in rows]
+    return write_csv(rows, quoting, lineterminator)
 
 
 # --------------------------------------------------------------------------- typed cells
